@@ -262,11 +262,26 @@ class Check:
             mods = ['SuppModel.Props.' + self.prop]
             cok, cout = leanchecker(mods)
             self.oblige('leanchecker re-check of ' + ' '.join(mods), cok, '' if cok else cout)
+        self.pin_obligation()
         if extra_targets:
             ok2, out2 = lake_build(list(extra_targets))
             if not ok2:
                 raise Infra('driver build failed:\n' + out2[-3000:])
         return ok
+
+    def pin_obligation(self):
+        """the functions of supp this property's models transliterate are, as abstract syntax, the audited ones (translators/tr_pins.py)"""
+        sys.path.insert(0, os.path.join(VERIF, 'translators'))
+        try:
+            import tr_pins
+            ok, problems, n = tr_pins.audit(REPO, self.prop)
+        except Exception as e:  # noqa
+            ok, problems, n = False, [repr(e)], 0
+        finally:
+            sys.path.pop(0)
+        self.oblige('source pins: the %d functions of supp the models of %s transliterate are the audited ones (translators/tr_pins.py; '
+                    'a change here is a broken tie, not by itself a violation)' % (n, self.prop), ok, '; '.join(problems[:8]))
+        self.extra['source_pins'] = {'functions_in_footprint': n, 'problems': problems[:20]}
 
     def prove_also(self, props_module):
         """a second property file (lean/SuppModel/Props/<props_module>.lean) whose theorems count for this property too:
